@@ -1,5 +1,416 @@
 import RV.Json
+import RV.Model.Conversion
+import RV.Oracle.C20
+/-!
+  Driver for suite `conversion` (property C20).
+
+  ops
+    rolloutAB  in: v1alpha1 Rollout       impl: {mid: ConvertTo in,   back: ConvertFrom mid}
+    rolloutBA  in: v1beta1 Rollout        impl: {mid: ConvertFrom in, back: ConvertTo mid}
+    brAB/brBA  the same for BatchRelease
+    fields     in: {type}                 impl: leaf field paths of the Go type (reflection)
+-/
 namespace RV.Drv.Conversion
-open Lean RV
-def handle : Handler := fun op _ _ => .error s!"Conversion: op {op} not implemented"
+open Lean RV RV.Conversion RV.Oracle.C20
+
+/-! ### JSON → model -/
+
+def fOptJ {α} (f : Json → R α) (j : Json) (k : String) : R (Option α) :=
+  match jopt j k with
+  | none => .ok none
+  | some v => do return some (← f v)
+
+def fList {α} (f : Json → R α) (j : Json) (k : String) : R (List α) := do
+  jlistM f (← jget j k)
+
+def iosOf (j : Json) : R IOS :=
+  match jopt j "i", jopt j "s" with
+  | some v, _ => do return .int (← jint v)
+  | _, some v => do return .str (← jstr v)
+  | _, _ => .error s!"bad intorstring {j.compress}"
+
+def metaOf (j : Json) : R Meta := do
+  return { rest := ← fStr j "rest", annStyle := ← fOptStr j "style", annTR := ← fOptStr j "tr",
+           annOthers := ← fStr j "others" }
+
+def refOf (j : Json) : R Ref := do
+  return { apiVersion := ← fStr j "apiVersion", kind := ← fStr j "kind", name := ← fStr j "name" }
+
+def trRefOf (j : Json) : R TRRef := do
+  return { service := ← fStr j "service"
+           gracePeriodSeconds := ← fInt j "grace"
+           ingress := ← fOptJ (fun i => do
+             return ({ classType := ← fStr i "classType", name := ← fStr i "name" } : Ingress)) j "ingress"
+           gateway := ← fOptJ (fun g => do
+             return ({ httpRouteName := ← fOptStr g "route" } : Gateway)) j "gateway"
+           customNetworkRefs := ← fList refOf j "custom" }
+
+def kvOf (j : Json) : R (String × String) := do
+  match ← jarr j with
+  | [k, v] => return (← jstr k, ← jstr v)
+  | _ => .error s!"bad kv {j.compress}"
+
+def patchOf (j : Json) : R Patch := do
+  return { annotations := ← fList kvOf j "annotations", labels := ← fList kvOf j "labels" }
+
+def condOf (j : Json) : R Condition := do
+  return { type := ← fStr j "type", status := ← fStr j "status", lastUpdateTime := ← fStr j "lut",
+           lastTransitionTime := ← fStr j "ltt", reason := ← fStr j "reason", message := ← fStr j "message" }
+
+def canaryStatusOf (j : Json) : R CanaryStatus := do
+  return { observedWorkloadGeneration := ← fInt j "owg"
+           observedRolloutID := ← fStr j "orid"
+           rolloutHash := ← fStr j "hash"
+           stableRevision := ← fStr j "stable"
+           canaryRevision := ← fStr j "canaryRev"
+           podTemplateHash := ← fStr j "pth"
+           canaryReplicas := ← fInt j "replicas"
+           canaryReadyReplicas := ← fInt j "ready"
+           nextStepIndex := ← fInt j "next"
+           currentStepIndex := ← fInt j "cur"
+           currentStepState := ← fStr j "state"
+           message := ← fStr j "message"
+           lastUpdateTime := ← fOptStr j "lut"
+           finalisingStep := ← fStr j "fin" }
+
+def planOf (j : Json) : R ReleasePlan := do
+  return { batches := ← fList iosOf j "batches"
+           batchPartition := ← fOptInt j "partition"
+           rolloutID := ← fStr j "rolloutID"
+           failureThreshold := ← fOptJ iosOf j "ft"
+           finalizingPolicy := ← fStr j "policy"
+           patch := ← fOptJ patchOf j "patch"
+           rollingStyle := ← fStr j "style"
+           enableExtraWorkloadForCanary := ← fBool j "extra" }
+
+def brCanaryStatusOf (j : Json) : R BRCanaryStatus := do
+  return { currentBatchState := ← fStr j "state"
+           currentBatch := ← fInt j "batch"
+           batchReadyTime := ← fOptStr j "readyTime"
+           updatedReplicas := ← fInt j "updated"
+           updatedReadyReplicas := ← fInt j "updatedReady"
+           noNeedUpdateReplicas := ← fOptInt j "noNeed" }
+
+def strList (j : Json) (k : String) : R (List String) := fList jstr j k
+
+def pauseOf (j : Json) : R Pause := do return { duration := ← fOptInt j "pause" }
+
+def aStepOf (j : Json) : R A.Step := do
+  let w ← fOptInt j "weight"
+  return { tr := { weight := w.map Int32.ofInt
+                   requestHeaderModifier := ← fOptStr j "rhm"
+                   mts := ← fList (fun m => do return ({ headers := ← strList m "headers" } : A.Match)) j "mts" }
+           replicas := ← fOptJ iosOf j "replicas"
+           pause := ← pauseOf j }
+
+def bStepOf (j : Json) : R B.Step := do
+  return { tr := { traffic := ← fOptStr j "traffic"
+                   requestHeaderModifier := ← fOptStr j "rhm"
+                   mts := ← fList (fun m => do
+                     return ({ path := ← fOptStr m "path", headers := ← strList m "headers",
+                               queryParams := ← strList m "query" } : B.Match)) j "mts" }
+           replicas := ← fOptJ iosOf j "replicas"
+           pause := ← pauseOf j }
+
+def aCanaryOf (j : Json) : R A.Canary := do
+  return { steps := ← fList aStepOf j "steps"
+           trafficRoutings := ← fList trRefOf j "trs"
+           failureThreshold := ← fOptJ iosOf j "ft"
+           patch := ← fOptJ patchOf j "patch"
+           disableGenerateCanaryService := ← fBool j "noSvc" }
+
+def bCanaryOf (j : Json) : R B.Canary := do
+  return { steps := ← fList bStepOf j "steps"
+           trafficRoutings := ← fList trRefOf j "trs"
+           failureThreshold := ← fOptJ iosOf j "ft"
+           patch := ← fOptJ patchOf j "patch"
+           enableExtraWorkloadForCanary := ← fBool j "extra"
+           trafficRoutingRef := ← fStr j "trRef"
+           disableGenerateCanaryService := ← fBool j "noSvc" }
+
+def aStatusOf (j : Json) : R A.Status := do
+  return { observedGeneration := ← fInt j "og"
+           canaryStatus := ← fOptJ canaryStatusOf j "cs"
+           conditions := ← fList condOf j "conds"
+           phase := ← fStr j "phase"
+           message := ← fStr j "message" }
+
+def bStatusOf (j : Json) : R B.Status := do
+  return { observedGeneration := ← fInt j "og"
+           canaryStatus := ← fOptJ canaryStatusOf j "cs"
+           blueGreenStatus := ← fOptStr j "bgs"
+           conditions := ← fList condOf j "conds"
+           phase := ← fStr j "phase"
+           message := ← fStr j "message"
+           currentStepIndex := ← fInt j "cur"
+           currentStepState := ← fStr j "state" }
+
+def aRolloutOf (j : Json) : R A.Rollout := do
+  let s ← jget j "spec"
+  return { md := ← metaOf (← jget j "md")
+           spec := { workloadRef := ← fOptJ refOf s "wref"
+                     strategy := { paused := ← fBool s "paused", canary := ← fOptJ aCanaryOf s "canary" }
+                     rolloutID := ← fStr s "rolloutID"
+                     disabled := ← fBool s "disabled" }
+           status := ← aStatusOf (← jget j "status") }
+
+def bRolloutOf (j : Json) : R B.Rollout := do
+  let s ← jget j "spec"
+  return { md := ← metaOf (← jget j "md")
+           spec := { workloadRef := ← refOf (← jget s "wref")
+                     strategy := { paused := ← fBool s "paused", canary := ← fOptJ bCanaryOf s "canary",
+                                   blueGreen := ← fOptStr s "blueGreen" }
+                     disabled := ← fBool s "disabled" }
+           status := ← bStatusOf (← jget j "status") }
+
+def aBRStatusOf (j : Json) : R A.BRStatus := do
+  return { conditions := ← fList condOf j "conds"
+           canaryStatus := ← brCanaryStatusOf (← jget j "cs")
+           stableRevision := ← fStr j "stable"
+           updateRevision := ← fStr j "update"
+           observedGeneration := ← fInt j "og"
+           observedRolloutID := ← fStr j "orid"
+           observedWorkloadReplicas := ← fInt j "replicas"
+           collisionCount := ← fOptInt j "collision"
+           observedReleasePlanHash := ← fStr j "hash"
+           phase := ← fStr j "phase" }
+
+def bBRStatusOf (j : Json) : R B.BRStatus := do
+  let a ← aBRStatusOf j
+  return { conditions := a.conditions, canaryStatus := a.canaryStatus, stableRevision := a.stableRevision,
+           updateRevision := a.updateRevision, observedGeneration := a.observedGeneration,
+           observedRolloutID := a.observedRolloutID, observedWorkloadReplicas := a.observedWorkloadReplicas,
+           collisionCount := a.collisionCount, observedReleasePlanHash := a.observedReleasePlanHash,
+           phase := a.phase, message := ← fStr j "message" }
+
+def aBROf (j : Json) : R A.BatchRelease := do
+  let s ← jget j "spec"
+  return { md := ← metaOf (← jget j "md")
+           spec := { workloadRef := ← fOptJ refOf s "wref", plan := ← planOf (← jget s "plan") }
+           status := ← aBRStatusOf (← jget j "status") }
+
+def bBROf (j : Json) : R B.BatchRelease := do
+  let s ← jget j "spec"
+  return { md := ← metaOf (← jget j "md")
+           spec := { workloadRef := ← refOf (← jget s "wref"), plan := ← planOf (← jget s "plan") }
+           status := ← bBRStatusOf (← jget j "status") }
+
+/-! ### model → JSON -/
+
+def oStr : Option String → Json := optJ strJ
+def oInt : Option Int → Json := optJ intJ
+
+def iosJ : IOS → Json
+  | .int n => mkObj [("i", intJ n)]
+  | .str s => mkObj [("s", strJ s)]
+
+def metaJ (m : Meta) : Json :=
+  mkObj [("rest", strJ m.rest), ("style", oStr m.annStyle), ("tr", oStr m.annTR), ("others", strJ m.annOthers)]
+
+def refJ (r : Ref) : Json :=
+  mkObj [("apiVersion", strJ r.apiVersion), ("kind", strJ r.kind), ("name", strJ r.name)]
+
+def trRefJ (t : TRRef) : Json :=
+  mkObj [("service", strJ t.service), ("grace", intJ t.gracePeriodSeconds),
+         ("ingress", optJ (fun i => mkObj [("classType", strJ i.classType), ("name", strJ i.name)]) t.ingress),
+         ("gateway", optJ (fun g => mkObj [("route", oStr g.httpRouteName)]) t.gateway),
+         ("custom", arrJ (t.customNetworkRefs.map refJ))]
+
+def kvJ (kv : String × String) : Json := arrJ [strJ kv.1, strJ kv.2]
+
+def patchJ (p : Patch) : Json :=
+  mkObj [("annotations", arrJ (p.annotations.map kvJ)), ("labels", arrJ (p.labels.map kvJ))]
+
+def condJ (c : Condition) : Json :=
+  mkObj [("type", strJ c.type), ("status", strJ c.status), ("lut", strJ c.lastUpdateTime),
+         ("ltt", strJ c.lastTransitionTime), ("reason", strJ c.reason), ("message", strJ c.message)]
+
+def canaryStatusJ (s : CanaryStatus) : Json :=
+  mkObj [("owg", intJ s.observedWorkloadGeneration), ("orid", strJ s.observedRolloutID),
+         ("hash", strJ s.rolloutHash), ("stable", strJ s.stableRevision),
+         ("canaryRev", strJ s.canaryRevision), ("pth", strJ s.podTemplateHash),
+         ("replicas", intJ s.canaryReplicas), ("ready", intJ s.canaryReadyReplicas),
+         ("next", intJ s.nextStepIndex), ("cur", intJ s.currentStepIndex),
+         ("state", strJ s.currentStepState), ("message", strJ s.message),
+         ("lut", oStr s.lastUpdateTime), ("fin", strJ s.finalisingStep)]
+
+def planJ (p : ReleasePlan) : Json :=
+  mkObj [("batches", arrJ (p.batches.map iosJ)), ("partition", oInt p.batchPartition),
+         ("rolloutID", strJ p.rolloutID), ("ft", optJ iosJ p.failureThreshold),
+         ("policy", strJ p.finalizingPolicy), ("patch", optJ patchJ p.patch),
+         ("style", strJ p.rollingStyle), ("extra", boolJ p.enableExtraWorkloadForCanary)]
+
+def brCanaryStatusJ (s : BRCanaryStatus) : Json :=
+  mkObj [("state", strJ s.currentBatchState), ("batch", intJ s.currentBatch),
+         ("readyTime", oStr s.batchReadyTime), ("updated", intJ s.updatedReplicas),
+         ("updatedReady", intJ s.updatedReadyReplicas), ("noNeed", oInt s.noNeedUpdateReplicas)]
+
+def strsJ (l : List String) : Json := arrJ (l.map strJ)
+
+def aStepJ (s : A.Step) : Json :=
+  mkObj [("weight", optJ (fun (w : Int32) => intJ w.toInt) s.tr.weight), ("rhm", oStr s.tr.requestHeaderModifier),
+         ("mts", arrJ (s.tr.mts.map fun m => mkObj [("headers", strsJ m.headers)])),
+         ("replicas", optJ iosJ s.replicas), ("pause", oInt s.pause.duration)]
+
+def bStepJ (s : B.Step) : Json :=
+  mkObj [("traffic", oStr s.tr.traffic), ("rhm", oStr s.tr.requestHeaderModifier),
+         ("mts", arrJ (s.tr.mts.map fun m =>
+            mkObj [("path", oStr m.path), ("headers", strsJ m.headers), ("query", strsJ m.queryParams)])),
+         ("replicas", optJ iosJ s.replicas), ("pause", oInt s.pause.duration)]
+
+def aCanaryJ (c : A.Canary) : Json :=
+  mkObj [("steps", arrJ (c.steps.map aStepJ)), ("trs", arrJ (c.trafficRoutings.map trRefJ)),
+         ("ft", optJ iosJ c.failureThreshold), ("patch", optJ patchJ c.patch),
+         ("noSvc", boolJ c.disableGenerateCanaryService)]
+
+def bCanaryJ (c : B.Canary) : Json :=
+  mkObj [("steps", arrJ (c.steps.map bStepJ)), ("trs", arrJ (c.trafficRoutings.map trRefJ)),
+         ("ft", optJ iosJ c.failureThreshold), ("patch", optJ patchJ c.patch),
+         ("extra", boolJ c.enableExtraWorkloadForCanary), ("trRef", strJ c.trafficRoutingRef),
+         ("noSvc", boolJ c.disableGenerateCanaryService)]
+
+def aStatusJ (s : A.Status) : Json :=
+  mkObj [("og", intJ s.observedGeneration), ("cs", optJ canaryStatusJ s.canaryStatus),
+         ("conds", arrJ (s.conditions.map condJ)), ("phase", strJ s.phase), ("message", strJ s.message)]
+
+def bStatusJ (s : B.Status) : Json :=
+  mkObj [("og", intJ s.observedGeneration), ("cs", optJ canaryStatusJ s.canaryStatus),
+         ("bgs", oStr s.blueGreenStatus),
+         ("conds", arrJ (s.conditions.map condJ)), ("phase", strJ s.phase), ("message", strJ s.message),
+         ("cur", intJ s.currentStepIndex), ("state", strJ s.currentStepState)]
+
+def aRolloutJ (a : A.Rollout) : Json :=
+  mkObj [("md", metaJ a.md),
+         ("spec", mkObj [("wref", optJ refJ a.spec.workloadRef), ("paused", boolJ a.spec.strategy.paused),
+                         ("canary", optJ aCanaryJ a.spec.strategy.canary),
+                         ("rolloutID", strJ a.spec.rolloutID), ("disabled", boolJ a.spec.disabled)]),
+         ("status", aStatusJ a.status)]
+
+def bRolloutJ (b : B.Rollout) : Json :=
+  mkObj [("md", metaJ b.md),
+         ("spec", mkObj [("wref", refJ b.spec.workloadRef), ("paused", boolJ b.spec.strategy.paused),
+                         ("canary", optJ bCanaryJ b.spec.strategy.canary),
+                         ("blueGreen", oStr b.spec.strategy.blueGreen), ("disabled", boolJ b.spec.disabled)]),
+         ("status", bStatusJ b.status)]
+
+def brStatusFields (conds : List Condition) (cs : BRCanaryStatus) (stable update : String) (og : Int)
+    (orid : String) (replicas : Int) (collision : Option Int) (hash phase : String) : List (String × Json) :=
+  [("conds", arrJ (conds.map condJ)), ("cs", brCanaryStatusJ cs), ("stable", strJ stable),
+   ("update", strJ update), ("og", intJ og), ("orid", strJ orid), ("replicas", intJ replicas),
+   ("collision", oInt collision), ("hash", strJ hash), ("phase", strJ phase)]
+
+def aBRJ (a : A.BatchRelease) : Json :=
+  let s := a.status
+  mkObj [("md", metaJ a.md),
+         ("spec", mkObj [("wref", optJ refJ a.spec.workloadRef), ("plan", planJ a.spec.plan)]),
+         ("status", mkObj (brStatusFields s.conditions s.canaryStatus s.stableRevision s.updateRevision
+            s.observedGeneration s.observedRolloutID s.observedWorkloadReplicas s.collisionCount
+            s.observedReleasePlanHash s.phase))]
+
+def bBRJ (b : B.BatchRelease) : Json :=
+  let s := b.status
+  mkObj [("md", metaJ b.md),
+         ("spec", mkObj [("wref", refJ b.spec.workloadRef), ("plan", planJ b.spec.plan)]),
+         ("status", mkObj (brStatusFields s.conditions s.canaryStatus s.stableRevision s.updateRevision
+            s.observedGeneration s.observedRolloutID s.observedWorkloadReplicas s.collisionCount
+            s.observedReleasePlanHash s.phase ++ [("message", strJ s.message)]))]
+
+def outcomeJ {α} (f : α → Json) : Outcome α → Json
+  | .ok a => mkObj [("ok", f a)]
+  | .panic => mkObj [("panic", boolJ true)]
+
+def outcomeOf {α} (f : Json → R α) (j : Json) : R (Outcome α) :=
+  match jopt j "ok", jopt j "panic" with
+  | some v, _ => do return .ok (← f v)
+  | _, some _ => .ok .panic
+  | _, _ => .error s!"bad outcome {j.compress}"
+
+/-- run `first` then (if it returned) `second`; JSON of both -/
+def twoStep {α β} (first : Outcome α) (second : α → Outcome β) (fa : α → Json) (fb : β → Json) : Json :=
+  match first with
+  | .panic => mkObj [("mid", outcomeJ fa first), ("back", .null)]
+  | .ok m => mkObj [("mid", outcomeJ fa first), ("back", outcomeJ fb (second m))]
+
+/-- the implementation's observed (mid, back) -/
+def implTwo {α β} (impl : Json) (pa : Json → R α) (pb : Json → R β) : R (Outcome α × Option (Outcome β)) := do
+  let mid ← outcomeOf pa (← jget impl "mid")
+  match jopt impl "back" with
+  | none => return (mid, none)
+  | some b => return (mid, some (← outcomeOf pb b))
+
+def bucket (n : Nat) : String := if n ≥ 3 then "3+" else toString n
+
+def styleTag (v : Option String) : String :=
+  match v with
+  | none => "style:absent"
+  | some s =>
+    if s == "partition" then "style:partition" else if s == "canary" then "style:canary"
+    else if eqFold s stylePartition then "style:Partition~" else if eqFold s styleCanary then "style:Canary~"
+    else if eqFold s styleBlueGreen then "style:bluegreen~" else if s == "" then "style:empty" else "style:other"
+
+def verdicts {α β} (mid : Outcome α) (back : Option (Outcome β)) (clause : String) (h : Outcome β → Bool) :
+    List (String × Bool) × List String :=
+  match mid, back with
+  | .ok _, some (.ok b) => ([("C20.total", true), (clause, h (.ok b))], [])
+  | _, _ => ([("C20.total", false), (clause, true)], ["panic"])
+
+def handle : Handler := fun op inp impl => do
+  match op with
+  | "rolloutAB" =>
+    let a ← aRolloutOf inp
+    let (mid, back) ← implTwo impl bRolloutOf aRolloutOf
+    let (hs, t) := verdicts mid back "C20.meaning" (meaningHoldsRollout a)
+    let tags := ["rolloutAB", if a.spec.workloadRef.isNone then "wref:nil" else "wref:set", styleTag a.md.annStyle,
+      if a.md.annTR.isSome then "trAnn:set" else "trAnn:absent",
+      if a.status.canaryStatus.isSome then "canaryStatus:set" else "canaryStatus:nil"] ++
+      (match a.spec.strategy.canary with
+       | none => ["canary:nil"]
+       | some c => ["canary:set", "steps:" ++ bucket c.steps.length, "trs:" ++ bucket c.trafficRoutings.length] ++
+          (if c.steps.any (fun s => s.replicas.isNone && s.tr.weight.isSome) then ["step:weight-only"] else []) ++
+          (if c.steps.any (fun s => !s.tr.mts.isEmpty) then ["step:matches"] else []) ++
+          (if c.patch.isSome then ["patch:set"] else []) ++
+          (if c.disableGenerateCanaryService then ["noSvc:true"] else []) ++
+          (if a.spec.rolloutID != "" then ["rolloutID:set"] else []))
+    return { model := twoStep (rolloutTo a) rolloutFrom bRolloutJ aRolloutJ, holds := hs, tags := tags ++ t }
+  | "rolloutBA" =>
+    let b ← bRolloutOf inp
+    let (mid, back) ← implTwo impl aRolloutOf bRolloutOf
+    let (hs, t) := verdicts mid back "C20.rmw" (rmwHoldsRollout b)
+    let tags := ["rolloutBA", if expressibleRollout b then "expressible" else "inexpressible"] ++
+      (if b.spec.strategy.blueGreen.isSome then ["blueGreen"] else []) ++
+      (if b.spec.strategy.isEmptyRelease then ["empty-strategy"] else []) ++
+      (match b.spec.strategy.canary with
+       | none => []
+       | some c => ["steps:" ++ bucket c.steps.length] ++
+          (if c.steps.any (fun s => match s.tr.traffic with | some t => !trafficExpressible t | none => false)
+            then ["traffic:noncanonical"] else []) ++
+          (if c.disableGenerateCanaryService then ["noSvc:true"] else []) ++
+          (if c.trafficRoutingRef != "" then ["trRef:set"] else []))
+    return { model := twoStep (rolloutFrom b) rolloutTo aRolloutJ bRolloutJ, holds := hs, tags := tags ++ t }
+  | "brAB" =>
+    let a ← aBROf inp
+    let (mid, back) ← implTwo impl bBROf aBROf
+    let (hs, t) := verdicts mid back "C20.meaning" (meaningHoldsBR a)
+    let tags := ["brAB", if a.spec.workloadRef.isNone then "wref:nil" else "wref:set", styleTag a.md.annStyle,
+      "field" ++ styleTag (some a.spec.plan.rollingStyle), "batches:" ++ bucket a.spec.plan.batches.length] ++
+      (if a.spec.plan.patch.isSome then ["patch:set"] else [])
+    return { model := twoStep (brTo a) brFrom bBRJ aBRJ, holds := hs, tags := tags ++ t }
+  | "brBA" =>
+    let b ← bBROf inp
+    let (mid, back) ← implTwo impl aBROf bBROf
+    let (hs, t) := verdicts mid back "C20.rmw" (rmwHoldsBR b)
+    let tags := ["brBA", if expressibleBR b then "expressible" else "inexpressible",
+      "field" ++ styleTag (some b.spec.plan.rollingStyle), "batches:" ++ bucket b.spec.plan.batches.length]
+    return { model := twoStep (brFrom b) brTo aBRJ bBRJ, holds := hs, tags := tags ++ t }
+  | "fields" =>
+    let ty ← fStr inp "type"
+    let l ← match ty with
+      | "v1alpha1.Rollout" => pure fieldsARollout
+      | "v1beta1.Rollout" => pure fieldsBRollout
+      | "v1alpha1.BatchRelease" => pure fieldsABatchRelease
+      | "v1beta1.BatchRelease" => pure fieldsBBatchRelease
+      | _ => .error s!"fields: unknown type {ty}"
+    return { model := strsJ l, tags := ["fields"] }
+  | _ => .error s!"conversion: unknown op {op}"
+
 end RV.Drv.Conversion
